@@ -3,9 +3,13 @@ Continuation of Props/PyLegacySeq2.lean: `add_constraint` of the legacy `Sequenc
 
   `py_seq_union_pairs_dna`, `py_seq_union_pairs_rna`   for every pair of IUPAC codes (15 × 15) the legacy `_iupac_union` (with `_iupac_bin`, `_bin_iupac` and
                                their displays keyed by `T`) is the current `bin_iupac[iupac_bin[x] & iupac_bin[y]]` - both translations evaluated by the kernel
+  `py_seq_union_reads`         `_iupac_union` (and the helpers under it) leave the object untouched and read only `ToU`
+  `py_seq_merge_eq`            `_merge_constraints(self._sequence, con)` as written = the per-position results `bin_iupac[bin x & bin y]` of the current
+                               `add_constraints`, for IUPAC sequences of either molecule (lists of the same results, exceptions included)
 -/
 import DsdVerif.Props.PyLegacySeq2
 import DsdVerif.Lemmas.PyLegacySeq3
+import DsdVerif.Lemmas.PyLegacySeq3c
 
 namespace Dsd.PyLegacySeq
 open Dsd Dsd.Gen
@@ -15,6 +19,15 @@ theorem py_seq_union_pairs_dna : ∀ p ∈ pairsOf "DNA", ((py_SequenceConstrain
 theorem py_seq_union_pairs_rna : ∀ p ∈ pairsOf "RNA", ((py_SequenceConstraint_iupac_union ([p.1], [p.2])).exec (st0 ['U'])).1 =
     (curUnion bin_iupac_rna p).map String.toList := union_pairs_rna
 
+theorem py_seq_union_reads (p : List Char × List Char) : ReadsToU (py_SequenceConstraint_iupac_union p) := union_reads p
+
+theorem py_seq_merge_eq (s c : List Char) (mol : String) (hm : mol = "DNA" ∨ mol = "RNA") (hs : ∀ x ∈ s, x ∈ codesOf mol)
+    (hc : ∀ x ∈ c, x ∈ codesOf mol) :
+    (py_SequenceConstraint_merge_constraints (s.map (fun x => [x])) (c.map (fun x => [x]))).exec (mkS s mol) =
+      ((List.mapM (curUnion (tblOf mol)) (List.zip s c)).map (List.map String.toList), mkS s mol) := merge_eq s c mol hm hs hc
+
+#print axioms py_seq_union_reads
+#print axioms py_seq_merge_eq
 #print axioms py_seq_union_pairs_dna
 #print axioms py_seq_union_pairs_rna
 
